@@ -139,11 +139,19 @@ def gen(rng):
     else:
         argv = ['trash-rm', rng.choice(['*', 'ent*', 'ent[0-1]', 'ent0'])]
         spec = {'argv': argv, 'env': env, 'cwd': '/', 'uid': uid}
+    clock = {'start': '2025-03-03T03:03:03.000000'}
+    if cmd == 'trash-empty' and argv[-1] == '1' and rng.random() < 0.5:
+        # time passes while the command runs (0.3 s per system call) and some entries reach the age limit DURING the run: whenever
+        # an entry is judged, its payload and its info go together or stay together
+        clock['op_us'] = 300000
+        tdir = locs[0][0]
+        for j, secs in enumerate(rng.sample([1, 2, 3, 4, 6, 8, 12], 3)):
+            G.add_trashed(steps, tdir, 'entedge%d' % j, TG.pct(home + '/w/entedge%d' % j), '2025-03-02T03:03:%02d' % (3 + secs), 'file', tag='edge%d' % j)
     case_ = {
         'world': {'mounts': L['mounts'], 'steps': steps},
         'procs': [spec],
         'dirsalt': rng.randrange(1 << 30),
-        'clock': {'start': '2025-03-03T03:03:03.000000'},
+        'clock': clock,
         'note': {'cmd': cmd, 'cross': cross, 'many': many, 'occupied': occupied},
         'faults': faults,
     }
@@ -288,6 +296,10 @@ def check(sim, case, st):
                 # the recursion limit) (how far it got depends on the order in which directories are listed):
                 # there is no 'complete purge' to compare the re-run with; the payload/info invariant above still applies
                 st.probes['no-complete-purge-to-compare-with'] += 1
+            elif case.get('clock', {}).get('op_us'):
+                # (a clock that moves during the run: which entries are past the limit depends on WHEN each run looks at them, the
+                # re-run and the uninterrupted run need not agree - the payload / info invariant above is what these cases are for)
+                st.probes['live-clock-no-rerun-comparison'] += 1
             elif set(ta) != set(tf):
                 bad('rerun-did-not-complete', 're-running the killed command leaves %r, the uninterrupted run leaves %r'
                     % (sorted(set(ta) - set(tf))[:5], sorted(set(tf) - set(ta))[:5]))
